@@ -791,6 +791,13 @@ class Interp:
                 if n_ < lo:
                     return nerr("TakeTill1")
                 return ok(Val("tuple", [vstr(inp[n_:]), vstr(inp[:n_])]))
+            if kind == "satisfy":
+                if not inp:
+                    return nerr("Satisfy")
+                rb = self.call_closure(cs, p.v[0], [Val("char", inp[0])]).deref()
+                if rb.k != "bool":
+                    return None
+                return ok(Val("tuple", [vstr(inp[1:]), Val("char", inp[0])])) if rb.v else nerr("Satisfy")
             if kind in ("tag", "char", "one_of", "none_of"):
                 v_ = p.v[0].deref()
                 if v_.k not in ("str", "char"):
@@ -908,6 +915,8 @@ class Interp:
             return Val("adt", [d[0].v, d[1].v, args[2]], ("nom", "take_while_m_n"))
         if fn in ("nom::bytes::complete::take_while1", "nom::bytes::complete::take_while") and len(d) == 1:
             return Val("adt", [1 if fn.endswith("1") else 0, None, args[0]], ("nom", "take_while1"))
+        if fn == "nom::character::complete::satisfy" and len(args) == 1:
+            return Val("adt", [args[0]], ("nom", "satisfy"))
         if fn in ("nom::bytes::complete::take_till1", "nom::bytes::complete::take_till") and len(d) == 1:
             return Val("adt", [1 if fn.endswith("1") else 0, args[0]], ("nom", "take_till"))
         if fn in ("nom::bytes::complete::tag", "nom::character::complete::char", "nom::character::complete::one_of", "nom::character::complete::none_of") and len(d) == 1:
@@ -1723,6 +1732,17 @@ class Interp:
             return vstr(s0.strip() if m == "trim" else s0)
         if m == "contains" and pv is not None:
             return vbool(pv in s0)
+        if m in ("split_once", "rsplit_once") and pv:
+            i_ = s0.find(pv) if m == "split_once" else s0.rfind(pv)
+            return some(Val("tuple", [vstr(s0[:i_]), vstr(s0[i_ + len(pv):])])) if i_ >= 0 else NONE_V
+        if m in ("splitn", "rsplitn") and len(d) > 2 and d[1].k == "int" and d[2].k in ("str", "char") and d[2].v and d[1].v >= 1:
+            parts = s0.split(d[2].v, d[1].v - 1) if m == "splitn" else s0.rsplit(d[2].v, d[1].v - 1)[::-1]
+            return Val("iter", [vstr(x) for x in parts])
+        if m in ("find", "rfind") and pv:
+            i_ = s0.find(pv) if m == "find" else s0.rfind(pv)
+            return some(vint(len(s0[:i_].encode("utf-8")))) if i_ >= 0 else NONE_V
+        if m == "matches" and pv:
+            return Val("iter", [vstr(pv)] * s0.count(pv))
         if m == "lines":
             ls = s0.split("\n")
             if ls and ls[-1] == "":
